@@ -372,6 +372,21 @@ def r11_5(prog, out):
                 for sp in bi.spawns:
                     if sp.task and attach_co in prog.cone(sp.task, follow=("call", "closure", "poll")) and a.origin is not None and a.origin.kind == "call" and a.origin.data == sp.bb:
                         att.add(a.ready_bb)
+        # ... or the JoinHandle is handed to a small future built here (`async move { handle.await.. }`) that is awaited here
+        for a in bi.awaits:
+            if a.origin is None or a.origin.kind != "agg":
+                continue
+            ag = bi.agg_at(a.origin.data)
+            if ag is None or ag.j.get("ak") != "coroutine":
+                continue
+            for op in ag.ops:
+                o = bi.trace(op)
+                if o.kind == "call":
+                    for sp in bi.spawns:
+                        if sp.bb == o.data and sp.task and attach_co in prog.cone(sp.task, follow=("call", "closure", "poll")):
+                            inner = prog.info(prog.qual(b, ag.j["def"]))
+                            if inner is not None and any(await_class(prog, inner, x) == "join_handle" or "JoinHandle" in (x.fut_ty or "") for x in inner.awaits):
+                                att.add(a.ready_bb)
         if not att:
             out.violation(key, bi.loc(ins[0].bb), "a subscription is inserted into the manager but never attached to its topic: it exists and never receives messages")
             continue
@@ -422,6 +437,16 @@ def flag_regions(prog, bi, cell):
                 if 0 in arms:
                     fa_blocks |= bi.cfg.edge_dominated(blk.idx, arms[0])
                 tr_blocks |= bi.cfg.edge_dominated(blk.idx, t.otherwise)
+        # the flag is an atomic (shared with a handle): `self.deleted.load(..)`
+        if t.k == "call" and t.callee is not None and t.callee.path.startswith("std::sync::atomic::") and t.callee.path.endswith("::load") \
+                and t.args and t.dest is not None and t.dest.is_local():
+            cs = prog.receiver_origin(bi, t.args[0]).cells()
+            if cs and cell in cs:
+                for sw, tr, fa in _bool_switches(bi, t.dest.local):
+                    if fa is not None:
+                        fa_blocks |= bi.cfg.edge_dominated(sw, fa)
+                    if tr is not None:
+                        tr_blocks |= bi.cfg.edge_dominated(sw, tr)
     return fa_blocks, tr_blocks
 
 
@@ -462,6 +487,12 @@ def r11_6(prog, out):
                         st = bi.stmt(*e.extra) if e.extra else None
                         if st is not None and st.rv.k == "use" and st.rv.ops[0].const_bool() is True:
                             good_sets.add(e.bb)
+                    # the flag as an atomic shared with the handle: `self.deleted.store(true, ..)`
+                    for e in prog.effects(tid):
+                        if e.kind in ("atomic_store", "atomic_rmw") and not e.chain and e.cells and flag in e.cells:
+                            tt = bi.body.blocks[e.bb].term
+                            if tt.k == "call" and len(tt.args) >= 2 and tt.args[1].const_bool() is True:
+                                good_sets.add(e.bb)
                     _fa, tr_blocks = flag_regions(prog, bi, flag)
                     esc = None
                     for e in rem:
@@ -773,6 +804,8 @@ def deletion_latch(prog, R):
         t = bi.body.blocks[e.bb].term if not e.chain else None
         if t is None or t.k != "call" or t.dest is None or not t.dest.is_local():
             continue
+        if e.cells[-1][0] != prog.anchors.ty("Subscription"):
+            continue            # the topic's own `deleted` flag is not the handle's latch
         for sw, tr, fa in _bool_switches(bi, t.dest.local):
             if fa is not None and ins and all(x.bb in bi.cfg.edge_dominated(sw, fa) for x in ins):
                 return e.cells[-1], tid
@@ -924,6 +957,36 @@ def r11_9_c14(prog, out):
     _r11_9(prog, out, "C14")
 
 
+def validated_on_hit(prog, cell, primary):
+    """every body that looks a handle up in `cell` goes on to read an atomic flag (of the handle) that the deletion handler of the
+    resource raises on every path *before* it removes the name from the manager's map `primary`"""
+    actor, vname, tid = delete_flow(prog)
+    ti = prog.info(tid)
+    rem = [e for e in prog.effects(tid) if e.touches(primary) and e.kind in L.REMOVE_KINDS]
+    if not rem:
+        return False
+    raised = {}
+    for e in prog.effects(tid):
+        if e.kind in ("atomic_store", "atomic_rmw") and e.cells:
+            raised.setdefault(e.cells[-1], set()).add(e.bb)
+    early = {c for c, bbs in raised.items() if all(any(ti.cfg.dominates(sb, r.bb) and sb != r.bb for sb in bbs) for r in rem)}
+    if not early:
+        return False
+    readers = 0
+    for b in prog.facts.lib_bodies():
+        bi = prog.info(b.id)
+        gets = [e for e in prog.own_effects(b.id) if e.touches(cell) and e.lib.split("::")[-1] in ("get", "get_mut", "get_key_value")
+                and ("HashMap::<" in e.lib or "BTreeMap::<" in e.lib)]
+        if not gets:
+            continue
+        readers += 1
+        for g in gets:
+            checks = [e for e in prog.effects(b.id) if e.kind == "atomic_load" and e.cells and e.cells[-1] in early and bi.cfg.can_reach(g.bb, e.bb)]
+            if not checks:
+                return False
+    return readers > 0
+
+
 def _r11_10(prog, out):
     """A map from resource names to handles is a registry: a request that finds a handle in it is served by that incarnation.
     The managers' maps (and the topic's attachment set) are kept in step with creation and deletion by R10.x / R11.x.  Any
@@ -979,6 +1042,9 @@ def _r11_10(prog, out):
                     key = "second-registry:%s.%s" % (short_ty(path), f["name"])
                     if companion_in_lockstep(prog, primary, cell):
                         out.holds(key, adt.get("span", ""), "kept in step with the manager's map: every removal there removes here")
+                    elif validated_on_hit(prog, cell, primary):
+                        out.holds(key, adt.get("span", ""), "not updated with the manager's map, but every hit is checked against a flag of the handle that the "
+                                  "resource's deletion raises before it releases the name: a handle that still passes is the one the manager holds")
                     else:
                         out.violation(key, adt.get("span", ""), "%s.%s maps names to %s handles next to the manager's map and is not updated when the manager's entry is "
                                       "removed: after delete + re-create of a name, requests that resolve through it are served by the deleted incarnation (the new "
